@@ -91,6 +91,7 @@ func main() {
 		os.Exit(2)
 	}
 	os.MkdirAll(*out, 0o755)
+	selfCheckCodecs()
 
 	count := *n
 	if count == 0 {
@@ -287,6 +288,19 @@ func main() {
 		traces += len(co.lines)
 		dist["variant:"+variantName(co.h.Variant)]++
 		dist[fmt.Sprintf("tracks:%d", len(co.h.Tracks))]++
+		{
+			vk := "video:none"
+			for _, t := range co.h.Tracks {
+				dist["track-codec:"+kindLabel(t.Kind)]++
+				if isVideoKind(t.Kind) {
+					vk = "video:" + kindLabel(t.Kind)
+				}
+			}
+			dist[vk+"/"+variantName(co.h.Variant)]++
+			if nontrivial {
+				dist["nontrivial-"+vk]++
+			}
+		}
 		if co.h.Disk {
 			dist["storage:disk"]++
 		} else {
@@ -336,7 +350,7 @@ func main() {
 	res := map[string]interface{}{
 		"evaluations":         len(outs),
 		"distinct_nontrivial": distinct,
-		"rule": "configurations and write histories from splitmix64(seed, index): variant x track set (0-1 H264 video, 0-3 AAC/Opus audio, any order) x SegmentCount x SegmentMinDuration x PartMinDuration x SegmentMaxSize x RAM/disk; " +
+		"rule": "configurations and write histories from splitmix64(seed, index): variant x track set (0-1 video: H264 / H265 / VP9 / AV1 on the fMP4 variants, H264 on MPEG-TS plus rejected MPEG-TS configurations with the other three; 0-3 AAC/Opus audio, any order) x SegmentCount x SegmentMinDuration x PartMinDuration x SegmentMaxSize x RAM/disk; " +
 			"30-230 writes (long histories: 1500-3000) with jitter, equal DTS, mid-GOP and negative starts, multi-AU audio, parameter changes, cross-track skew; distinct by SHA-256 of the history; " +
 			"non-trivial = at least 2 segments published and at least 3 rotations",
 		"samples":         samples,
@@ -357,6 +371,10 @@ func trunc(s string) string {
 		return s[:400] + "..."
 	}
 	return s
+}
+
+func kindLabel(k int) string {
+	return map[int]string{kH264: "h264", kH265: "h265", kVP9: "vp9", kAV1: "av1", kAAC: "aac", kOpus: "opus"}[k]
 }
 
 func bucket(n int) string {
